@@ -355,6 +355,10 @@ void ares_dnsrec_convert_cb(void *arg, ares_status_t status, size_t timeouts,
 
 void ares_free_query(ares_query_t *query);
 
+/*! Remove the query from its connection, the timeout index and the query id
+ *  index, leaving only its entry in the list of all queries. */
+void ares_query_unlink(ares_query_t *query);
+
 unsigned short ares_generate_new_id(ares_rand_state *state);
 ares_status_t  ares_expand_name_validated(const unsigned char *encoded,
                                           const unsigned char *abuf, size_t alen,
